@@ -785,10 +785,14 @@ def plan(ctx, ref, quick):
             jobs.append((ki, rng.randrange(len(ref.labels[ki]) - 16, len(ref.labels[ki]) + 1), rng.randrange(1, 25)))
     else:
         for ki in range(nk):
-            n = len(ref.labels[ki])
+            labels = ref.labels[ki]
+            n = len(labels)
+            first_commit = labels.index(COMMIT_FROM) if COMMIT_FROM in labels else 0
             for k in range(1, n + 1):
                 jobs.append((ki, k, 0))
-                jobs.append((ki, k, 1 + (k * 7 + ki * 3 + ctx.seed) % 36))
+                # a second crash during recovery: for every write of the commit section, every other one before it
+                if k > first_commit or (k + ki + ctx.seed) % 2 == 0:
+                    jobs.append((ki, k, 1 + (k * 7 + ki * 3 + ctx.seed) % 36))
     return jobs
 
 
@@ -935,7 +939,7 @@ def run_full(ctx, quick, base):
 
     # (b) crash points
     jobs = plan(ctx, ref, quick)
-    ctx.log('%d crash jobs (%s)' % (len(jobs), 'sample' if quick else 'every write of every kind, each also with a second crash during recovery'))
+    ctx.log('%d crash jobs (%s)' % (len(jobs), 'sample' if quick else 'every write of every kind; commit-section writes and every other consensus write also with a second crash during recovery'))
     workers = 8
     results = []
     with ThreadPoolExecutor(max_workers=workers) as ex:
